@@ -128,6 +128,23 @@ def run_case(case):
     return ('ok', [float(np.real(t)) for t in v], [float(np.imag(t)) for t in v] if np.iscomplexobj(v) else None, [float(t) for t in e], list(np.shape(val)), tame)
 
 
+ANCHOR_PROGS = (['x', 'exp'], ['x', 'sin'], ['x', 'cosh'])
+
+
+def run_anchor(case):
+    vlib.use_repo()
+    import numdifftools as nd
+    pi, m, n, order, a = case
+    r = RECS[pi]
+    f = exprs.make_fun(r['prog'], r['c'][0] / r['c'][1], a)
+    try:
+        with np.errstate(all='ignore'):
+            v = nd.Derivative(f, n=n, method=m, order=order)(a)
+        return float(np.real(v))
+    except Exception as ex:
+        return '%s: %s' % (type(ex).__name__, str(ex)[:120])
+
+
 def run(tier, rep):
     global RECS
     seed = vlib.seed_from_env()
@@ -185,6 +202,33 @@ def run(tier, rep):
         if not ratio <= envelope(m, n, kind):
             rep.violation('envelope:%s:n=%d:%s' % (m, n, kind), dict(prog=r['prog'], c=r['c'], a=a, method=m, n=n, order=order, step=[kind, sk], got=vre, exact=exact, sigma=sigma, ratio=ratio, envelope=envelope(m, n, kind)),
                           '%s: got %r, exact (n! * jet[n]) %r, |error|/sigma = %.3g exceeds the envelope %.3g' % (name, vre, exact, ratio, envelope(m, n, kind)))
+    # anchors: well-conditioned functions in every (method, n) cell, judged RELATIVE TO THE EXACT VALUE with a tight envelope
+    AENV = ENV['anchor']
+    acases = []
+    for pi, r in enumerate(uniq):
+        if r['prog'] in [list(p) for p in ANCHOR_PROGS] and r['c'][0] / r['c'][1] in (1.0, 3.0):
+            for m in METHODS:
+                for n in range(1, NMAX[m] + 1):
+                    if n <= len(r['jet']) - 1 and exprs.exact_derivative(r['jet'], n) != 0:
+                        for order in ((1, 2, 4, 7) if tier == 'quick' else range(1, 9)):
+                            for a in (0.5, -2.0, 30.0):
+                                acases.append((pi, m, n, order, a))
+    nanch, anchor_worst = 0, {}
+    for (pi, m, n, order, a), v in zip(acases, vlib.pool_map(run_anchor, acases, chunksize=32)):
+        r = uniq[pi]
+        name = 'anchor %s @ c=%s a=%r | %s n=%d order=%d default generator' % ('.'.join(r['prog']), '/'.join(map(str, r['c'])), a, m, n, order)
+        if isinstance(v, str):
+            rep.violation('raises:anchor', dict(case=name), '%s raised %s' % (name, v))
+            continue
+        exact = exprs.exact_derivative(r['jet'], n)
+        rel = abs(v - exact) / abs(exact) if np.isfinite(v) else float('inf')
+        nanch += 1
+        env_a = AENV[m][str(n)]
+        anchor_worst[(m, n)] = max(anchor_worst.get((m, n), 0.0), rel / (env_a or 0.3))
+        if not rel <= (env_a or 0.3):
+            key = 'anchor:%s:n=%d' % (m, n) if env_a else 'anchor-inaccurate:%s:n=%d' % (m, n)
+            rep.violation(key, dict(case=name, got=v, exact=exact, relative_error=rel, envelope=env_a or 0.3),
+                          '%s: got %r, exact %r: relative error %.3g exceeds %.3g' % (name, v, exact, rel, env_a or 0.3))
     if os.environ.get('VERIF_SURVEY'):
         for k in sorted(allr):
             v = sorted(allr[k])
@@ -192,7 +236,7 @@ def run(tier, rep):
     states, trans, per = vlib.merge_tlc(results)
     cov = dict(states=states, transitions=trans, traces_validated_against_impl=nchk, programs=len(uniq),
                samples=[dict(prog=uniq[40]['prog'], c=uniq[40]['c'], jet=uniq[40]['jet'][:6])], evaluations=nchk,
-               distinct_nontrivial=len(nontriv), outside_tame_domain=untamed, skipped_overflow=sum(len(res.records) for res in results) - len(recs),
+               distinct_nontrivial=len(nontriv), anchor_cases=nanch, anchor_worst_over_envelope=max([0.0] + [v_ for k_, v_ in anchor_worst.items() if AENV[k_[0]][str(k_[1])]]), outside_tame_domain=untamed, skipped_overflow=sum(len(res.records) for res in results) - len(recs),
                rule='TLC enumerates all ExprMachine programs up to the depth bound (quick 2 ops x 3 scalings, thorough 3 ops); per program a seeded sample of (method, n, order, step option, base point); non-trivial = non-polynomial program and n >= 1',
                worst_ratio_over_envelope=max([worst[k] / envelope(k[0], k[1], k[2]) for k in worst] + [0.0]), tlc=per)
     assum = ['exact value = n! * jet[n] from spec/Jets.tla (K = 12); accuracy is decided on g(c*(x - a)) at x = a',
